@@ -688,7 +688,7 @@ struct QueH
         switch (o.code)
         {
         case Q_INSERT: case Q_REMOVE: return "idx:" + cls(o.a);
-        case Q_SWAP_ELEM: return o.a == o.b ? "same" : "distinct";
+        case Q_SWAP_ELEM: return o.a == o.b ? "same" : (o.a - o.b == 1 || o.b - o.a == 1) ? "adjacent" : "distinct";
         case Q_SWAP_QUE: return o.a ? "other-nonempty" : "other-empty";
         }
         return "-";
@@ -881,7 +881,7 @@ struct QueH
         {
             size_t i = (size_t)o.a, j = (size_t)o.b;
             a_que_swap_(m[i].addr, m[j].addr);
-            outcome = i == j ? "same" : "distinct";
+            outcome = i == j ? "same" : (i + 1 == j || j + 1 == i) ? "adjacent" : "distinct";
             std::swap(m[i], m[j]);
             break;
         }
@@ -967,7 +967,7 @@ struct QueH
         for (size_t i = 0; i <= num; ++i) { add(Q_REMOVE, (long)i); }
         add(Q_REMOVE, SMAX);
         add(Q_SORT_FORE); add(Q_SORT_BACK);
-        for (size_t i = 0; i < num; ++i) { for (size_t j = i; j < num; ++j) { if (j == i || j > i + 1) { add(Q_SWAP_ELEM, (long)i, (long)j); if (j != i) { add(Q_SWAP_ELEM, (long)j, (long)i); } } } } // adjacent pairs excluded (precondition)
+        for (size_t i = 0; i < num; ++i) { for (size_t j = i; j < num; ++j) { add(Q_SWAP_ELEM, (long)i, (long)j); if (j != i) { add(Q_SWAP_ELEM, (long)j, (long)i); } } } // every ordered pair, adjacent elements included (the statement restricts only the list-level swap)
         if (num + cur + 2 <= (size_t)N + 2) { add(Q_SWAP_QUE, 0); add(Q_SWAP_QUE, 2); }
         add(Q_DROP, 0); add(Q_DROP, 1);
         add(Q_SETZ, (long)siz);
